@@ -406,9 +406,10 @@ class Report:
         for i in self.instances:
             if not i.get("vacuous"):
                 counts[i["rule"]] = counts.get(i["rule"], 0) + 1
+        floor_errors = []
         for rid, floor in self.floors.items():
             if counts.get(rid, 0) < floor:
-                raise AnalysisError(
+                floor_errors.append(
                     "rule %s matched %d instance(s), fewer than the %d confirmed by hand "
                     "on the pinned tree - the rule has lost its anchor"
                     % (rid, counts.get(rid, 0), floor)
@@ -461,6 +462,12 @@ class Report:
             )
         for ln in lines:
             print(ln)
+        if floor_errors and not unlisted:
+            # no concrete violation to report, and a rule matched (almost) nothing:
+            # the analysis is broken, never a silent pass
+            raise AnalysisError("; ".join(floor_errors))
+        for fe in floor_errors:
+            print("ANALYSIS-WARNING property=%s %s" % (self.prop, fe))
         self._write_evidence(len(unlisted), len(listed))
         nonvac = [i for i in self.instances if not i.get("vacuous")]
         print(
